@@ -47,9 +47,15 @@ func (c *flagNameChecker) VisitExpr(expr ast.Expr) {
 	switch sym.Name {
 	case "Bool", "Duration", "Float64", "String",
 		"Int", "Int64", "Uint", "Uint64":
+		if len(call.Args) < 1 {
+			return // f(g()) form, the name is not available
+		}
 		c.checkFlagName(call, call.Args[0])
 	case "BoolVar", "DurationVar", "Float64Var", "StringVar",
 		"IntVar", "Int64Var", "UintVar", "Uint64Var":
+		if len(call.Args) < 2 {
+			return // f(g()) form, the name is not available
+		}
 		c.checkFlagName(call, call.Args[1])
 	}
 }
